@@ -42,11 +42,16 @@ type genIDReq struct {
 type genIDCase struct {
 	s2s  bool
 	reqs []*genIDReq
+	// the token-form requests of one kind are built from one attribute slice
+	// with spare capacity that the application shares between its goroutines
+	// (it only ever reads it)
+	sharedAttrs bool
+	shared      map[string][]xml.Attr
 }
 
 func (c genIDCase) String() string {
 	var sb strings.Builder
-	fmt.Fprintf(&sb, "s2s=%v", c.s2s)
+	fmt.Fprintf(&sb, "s2s=%v start elements built from one shared attribute slice (spare capacity)=%v", c.s2s, c.sharedAttrs)
 	for i, r := range c.reqs {
 		fmt.Fprintf(&sb, "\n  req %d: %s id-attribute=%s ns=%q -> err=%v response=%v (id %q); id on the wire %q", i, r.entry, r.idForm, r.nsForm, r.err, r.got, r.gotID, r.wireID)
 	}
@@ -76,7 +81,14 @@ type evalNoID struct {
 
 func genGenIDCase(t *rapid.T) genIDCase {
 	c := genIDCase{s2s: rapid.Bool().Draw(t, "s2s")}
-	n := rapid.IntRange(1, 3).Draw(t, "nreqs")
+	c.sharedAttrs = rapid.Bool().Draw(t, "sharedAttrs")
+	c.shared = map[string][]xml.Attr{}
+	for kind, typ := range map[string]string{"iq": "get", "message": "chat", "presence": "subscribe"} {
+		sh := make([]xml.Attr, 1, 8)
+		sh[0] = xt.A("type", typ)
+		c.shared[kind] = sh
+	}
+	n := rapid.IntRange(1, 4).Draw(t, "nreqs")
 	for i := 0; i < n; i++ {
 		r := &genIDReq{done: make(chan struct{})}
 		r.kind = rapid.SampledFrom([]string{"iq", "message", "presence", "presence"}).Draw(t, "kind")
@@ -92,7 +104,7 @@ func genGenIDCase(t *rapid.T) genIDCase {
 	return c
 }
 
-func (r *genIDReq) run(ctx context.Context, s *xmpp.Session, ns string, k int) {
+func (r *genIDReq) run(ctx context.Context, s *xmpp.Session, ns string, k int, shared []xml.Attr) {
 	defer close(r.done)
 	space := ""
 	if r.nsForm != "" {
@@ -116,23 +128,29 @@ func (r *genIDReq) run(ctx context.Context, s *xmpp.Session, ns string, k int) {
 		v.Q.N = marker
 		val = v
 	}
+	tokens := func() xml.TokenReader {
+		if shared != nil && r.idForm == "absent" {
+			return xmlstream.Wrap(pay.Reader(), xml.StartElement{Name: xml.Name{Space: space, Local: r.kind}, Attr: shared})
+		}
+		return el.Reader()
+	}
 	var resp xmlstream.TokenReadCloser
 	r.panic = ev.Guard(func() {
 		switch r.entry {
 		case "SendIQ":
-			resp, r.err = s.SendIQ(ctx, el.Reader())
+			resp, r.err = s.SendIQ(ctx, tokens())
 		case "EncodeIQ":
 			resp, r.err = s.EncodeIQ(ctx, val)
 		case "SendIQElement":
 			resp, r.err = s.SendIQElement(ctx, pay.Reader(), stanza.IQ{Type: stanza.GetIQ})
 		case "SendMessage":
-			resp, r.err = s.SendMessage(ctx, el.Reader())
+			resp, r.err = s.SendMessage(ctx, tokens())
 		case "EncodeMessage":
 			resp, r.err = s.EncodeMessage(ctx, val)
 		case "SendMessageElement":
 			resp, r.err = s.SendMessageElement(ctx, pay.Reader(), stanza.Message{Type: stanza.ChatMessage})
 		case "SendPresence":
-			resp, r.err = s.SendPresence(ctx, el.Reader())
+			resp, r.err = s.SendPresence(ctx, tokens())
 		case "EncodePresence":
 			resp, r.err = s.EncodePresence(ctx, val)
 		case "SendPresenceElement":
@@ -205,7 +223,11 @@ func checkGenID(t interface {
 	ctx, cancel := context.WithCancel(context.Background())
 	defer cancel()
 	for k, r := range c.reqs {
-		go r.run(ctx, sv.Session, ns, k)
+		var shared []xml.Attr
+		if c.sharedAttrs {
+			shared = c.shared[r.kind]
+		}
+		go r.run(ctx, sv.Session, ns, k, shared)
 	}
 	// the peer answers every request with the id it finds on the wire
 	for k, r := range c.reqs {
@@ -296,10 +318,13 @@ func TestC06GeneratedIDs(t *testing.T) {
 	ev.Check(t, 1500, 15000, func(rt *rapid.T) {
 		c := genGenIDCase(rt)
 		classes := []string{"generated-id"}
+		if c.sharedAttrs {
+			classes = append(classes, "genid-start-elements-share-one-attribute-slice")
+		}
 		for _, r := range c.reqs {
 			classes = append(classes, "genid-"+r.entry+"-id-"+r.idForm)
 		}
-		ev.Case(true, fmt.Sprintf("genid|%v|%d|%s", c.s2s, len(c.reqs), strings.Join(classes, ",")), classes...)
+		ev.Case(true, fmt.Sprintf("genid|%v|%v|%d|%s", c.s2s, c.sharedAttrs, len(c.reqs), strings.Join(classes, ",")), classes...)
 		checkGenID(rt, c)
 	})
 }
